@@ -49,7 +49,7 @@ def _dotted(name):
 class VM:
     STACK = 512
 
-    def __init__(self, prog, env, funcs=None, max_steps=200000, max_effects=200, meta=None, main_done_effects=None, detect_divergence=True):
+    def __init__(self, prog, env, funcs=None, max_steps=200000, max_effects=200, meta=None, soft=False, detect_divergence=True):
         """prog: Program or code text.  funcs: {entry line: dict(name, nargs, nret, pushpop)}.
         meta: per text line None or dict(ins=[virt|None..], out=virt|None, pins=[..], pout=..) for the tag monitor."""
         if isinstance(prog, str):
@@ -66,6 +66,7 @@ class VM:
         self.max_steps = max_steps
         self.max_effects = max_effects
         self.detect_divergence = detect_divergence
+        self.soft = soft
         self.r = [0.0] * 18
         self.stack = [0.0] * self.STACK
         self.sh = 0
@@ -224,8 +225,14 @@ class VM:
 
     # ------------------------------------------------------------------ monitors
     def event(self, kind, *info, **sig):
-        self.events.append(dict(monitor=_MON.get(kind, "machine"), event=kind, pc=self.pc, info=list(info), **sig))
-        self.status = "event"
+        """Record a monitor event.  Diagnostic events (shadow stack, region, tags) stop the run unless the
+        machine was created with soft=True, in which case execution continues exactly as the chip would;
+        machine errors (bad stack address / jump target / sp) always stop: the chip itself would halt."""
+        if len(self.events) < 8:
+            self.events.append(dict(monitor=_MON.get(kind, "machine"), event=kind, pc=self.pc, effects_before=len(self.effects), info=list(info), **sig))
+        if self.soft and kind in _SOFT:
+            return
+        self.status = "machine-error" if kind in _HARD else "event"
         raise _Stop()
 
     def effect(self, *e):
@@ -357,6 +364,17 @@ class VM:
     def _call(self, t):
         npc = self.pc + 1
         self.r[17] = float(npc)
+        if t not in self.entries:
+            # pseudo call (body of `for x in [..]`): such a body is never re-entered while active, so a frame
+            # for the same body still on the shadow stack was abandoned by a `break` (a plain jump out of the body)
+            sh = self.shadow
+            for k in range(len(sh) - 1, -1, -1):
+                if sh[k][2] in self.entries:
+                    break
+                if sh[k][2] == t:
+                    del sh[k:]
+                    self.stat["abandoned_pseudo_frames"] = self.stat.get("abandoned_pseudo_frames", 0) + 1
+                    break
         self.shadow.append((npc, self.r[16], t))
         self.stat["calls"] += 1
         if len(self.shadow) > self.stat["max_depth"]:
@@ -368,10 +386,20 @@ class VM:
         tgt = self.r[17]
         if not self.shadow:
             self.event("return-without-call", tgt, where=_where(self, self.pc))
+            if tgt != tgt or abs(tgt) == math.inf:
+                self.event("jump-target", tgt)
+            return int(tgt)
         exp_pc, sp0, callee = self.shadow.pop()
+        while tgt != exp_pc and callee not in self.entries and self.shadow:
+            # frames of for-list bodies left by `break` carry no obligation: skip them (never a function frame)
+            self.stat["abandoned_pseudo_frames"] = self.stat.get("abandoned_pseudo_frames", 0) + 1
+            exp_pc, sp0, callee = self.shadow.pop()
         self.stat["returns"] += 1
         if tgt != exp_pc:
             self.event("ra-mismatch", tgt, exp_pc, callee=self._fname(callee), where=_where(self, self.pc))
+            if tgt != tgt or abs(tgt) == math.inf:
+                self.event("jump-target", tgt)
+            return int(tgt)
         f = self.funcs.get(callee)
         if f is not None and f.get("nargs") is not None:
             want = sp0 + ((f["nret"] - f["nargs"]) if f.get("pushpop") else 0)
@@ -392,7 +420,7 @@ class VM:
             if self.shadow:
                 self.stat["tail_calls"] += 1
             else:
-                self.event("jump-into-function", self.funcs[t].get("name"), frm=_where(self, self.pc))
+                self.event("jump-into-function", self.funcs[t].get("name"), frm=_where(self, self.pc), to="first-function" if t == self.first_entry else "later-function")
 
     def _branch(self, op, o):
         rel = op.startswith("br")
@@ -571,6 +599,8 @@ class VM:
         raise Unmodelled("rand")
 
 
+_SOFT = {"fall-through", "jump-into-function", "ra-mismatch", "return-without-call", "sp-mismatch", "clobber"}
+_HARD = {"stack-address", "jump-target", "sp-range", "call-depth"}
 _MON = {
     "fall-through": "region",
     "jump-into-function": "region",
